@@ -1,3 +1,4 @@
 pub mod ans;
 pub mod chain;
 pub mod range;
+pub mod refmodel;
